@@ -251,6 +251,21 @@ func hashWorkload() {
 	}
 	run("aad3b435b51404eeaad3b435b51404ee", "31d6cfe0d16ae931b73c59d7e0c089c0")
 	run(mk(3), mk(10))
+	// long runs of white space around a specification (a pasted column, a file with trailing
+	// blanks): as much not part of the hashes as one blank is
+	long := map[string]string{strings.Repeat(" ", 31): "sp31", strings.Repeat(" ", 32): "sp32", strings.Repeat(" ", 64): "sp64", strings.Repeat(" ", 127): "sp127", strings.Repeat("\t", 200): "tab200",
+		strings.Repeat("\u3000", 22): "idsp22", strings.Repeat("\r\n", 500): "crlf500", strings.Repeat(" ", 70000): "sp70000"}
+	for w, name := range long {
+		spaceNames[w] = name
+	}
+	for _, fname := range []string{"LM:NT", ":NT", "NT"} {
+		body := map[string]string{"LM:NT": mk(1) + ":" + mk(2), ":NT": ":" + mk(4), "NT": mk(6)}[fname]
+		for w := range long {
+			hashCase(w+body, fname+"/lower", w, "")
+			hashCase(body+w, fname+"/lower", "", w)
+			hashCase(w+strings.ToUpper(body)+w, fname+"/upper", w, w)
+		}
+	}
 	// ties between the two halves: the same 32 digits on both sides, halves that differ in one
 	// digit or only in letter case, one half inside the other's text (a half is a field, not a
 	// substring to search for)
